@@ -26,10 +26,18 @@ import (
 )
 
 type Body struct {
-	Op    string `json:"op"` // tag | pass | fail | graph
+	Op    string `json:"op"` // tag | pass | fail | graph | emit | collect
 	ID    int    `json:"id,omitempty"`
 	G     *Graph `json:"g,omitempty"`
 	Rerun int    `json:"rerun,omitempty"` // tag: the first Rerun attempts return InterruptAndRerun
+	// natively streaming nodes (streams.go):
+	//   emit: a producer of a stream. Xform=false: compose.StreamableLambda (value in, stream out; given
+	//     a stream it concatenates it first, which fails on a stream without chunks); Xform=true:
+	//     compose.TransformableLambda (reads its input chunk by chunk, also none). Output: the single
+	//     chunk {key: hash}, or with Empty a stream closed without any chunk.
+	//   collect: compose.CollectableLambda (reads its input chunk by chunk, value out).
+	Empty bool `json:"empty,omitempty"`
+	Xform bool `json:"xform,omitempty"`
 }
 
 type Node struct {
@@ -48,6 +56,9 @@ type Branch struct {
 	Multi bool       `json:"multi,omitempty"`
 	Table [][]string `json:"table"`
 	Fail  *int       `json:"fail,omitempty"`
+	// Stream: compose.NewStreamGraphBranch / NewStreamGraphMultiBranch: the condition reads the chunks
+	// itself (no chunk at all = the value EmptyM)
+	Stream bool `json:"stream,omitempty"`
 }
 
 type Graph struct {
@@ -67,7 +78,11 @@ type Case struct {
 	Input     string   `json:"input"`
 	MaxCalls  int      `json:"maxCalls"`
 	NoID      bool     `json:"noID,omitempty"`
-	Paradigms []string `json:"paradigms,omitempty"` // per call, cycling: invoke | stream | collect | transform (implementation side only)
+	Paradigms []string `json:"paradigms,omitempty"` // per call, cycling: invoke | stream | collect | transform (the model runs a call in value mode or in stream mode accordingly; the two differ only for graphs with natively streaming nodes)
+	// PlainPar: the paradigm of the uninterrupted reference run ("" = invoke). Set by the streams
+	// family, whose graphs have producers of chunk-less streams: such a graph behaves differently in
+	// value mode and in stream mode, so the reference run is driven in the mode of the history.
+	PlainPar string `json:"plainPar,omitempty"`
 
 	// which variant of the *other* property's source fact the model is to run with (probed from the
 	// implementation under test, so that the C05 check does not depend on C06's repair and vice versa)
@@ -314,6 +329,8 @@ func Build(g *Graph, prefix string, plain bool) (*compose.Graph[M, M], error) {
 			if err == nil {
 				err = cg.AddGraphNode(n.Key, sub, append(nopts, compose.WithGraphCompileOptions(CompileOpts(n.Body.G, plain)...))...)
 			}
+		case "emit", "collect":
+			err = addStreamLambda(cg, n, path, nopts)
 		default:
 			rr := n.Body.Rerun
 			if plain {
@@ -366,7 +383,9 @@ func Build(g *Graph, prefix string, plain bool) (*compose.Graph[M, M], error) {
 			ends[e] = true
 		}
 		var br *compose.GraphBranch
-		if b.Multi {
+		if b.Stream {
+			br = streamBranch(b, ends)
+		} else if b.Multi {
 			br = compose.NewGraphMultiBranch(func(ctx context.Context, in M) (map[string]bool, error) {
 				if b.Fail != nil {
 					return nil, &BranchErr{ID: *b.Fail}
@@ -469,6 +488,7 @@ type CallJ struct {
 	Execs  []string              `json:"execs"`
 	Stored bool                  `json:"stored"`
 	Handed any                   `json:"handed,omitempty"` // model only
+	Notes  []string              `json:"notes,omitempty"`  // model only: annotations for the distribution (not compared)
 
 	// implementation only (not compared with the model)
 	Effective []string                 `json:"-"` // executions that were not aborted rerun attempts
@@ -680,6 +700,7 @@ func (rn *Runnable) Call(input string, id *string, paradigm string) (*CallJ, str
 				}
 				if runErr == nil {
 					res = M{}
+					chunks := 0
 					for {
 						chunk, err := sr.Recv()
 						if err == io.EOF {
@@ -689,11 +710,16 @@ func (rn *Runnable) Call(input string, id *string, paradigm string) (*CallJ, str
 							runErr = err
 							break
 						}
+						chunks++
 						for k, v := range chunk {
 							res[k] = v
 						}
 					}
 					sr.Close()
+					if runErr == nil && chunks == 0 {
+						// the result stream was closed without any chunk: not the same as one chunk with an empty map
+						res = EmptyM()
+					}
 				}
 			} else {
 				res, runErr = rn.R.Invoke(ctx, M{"in": input}, opts...)
@@ -781,7 +807,11 @@ func RunPlain(c *Case) (*CallJ, string) {
 	if rn == nil {
 		return nil, class
 	}
-	call, class := rn.Call(c.Input, nil, "invoke")
+	par := "invoke"
+	if c.PlainPar != "" {
+		par = c.PlainPar
+	}
+	call, class := rn.Call(c.Input, nil, par)
 	if call == nil {
 		return nil, class
 	}
